@@ -9,8 +9,10 @@ package main
 
 import (
 	"fmt"
+	"os"
 	"reflect"
 	"sort"
+	"strconv"
 	"strings"
 	"sync"
 
@@ -21,7 +23,7 @@ import (
 
 // ECAL literal of every entry of c01Vals (checked against the table in Setup)
 var c01ValLit = []string{"null", "1", `"x"`, "[1]", `{"a":1}`, `"1"`, "2", "true", "[1]", "[2]", `{"a":1}`,
-	`{"a":2}`, `"x1"`, `""`, `"<nil>"`, "[[1]]", "[]", "{}", "false", `"[1]"`}
+	`{"a":2}`, `"x1"`, `""`, `"<nil>"`, "[[1]]", "[]", "{}", "false", `"[1]"`, "", "0", "-0"}
 
 // the value indexes usable in ECAL cases (filled in Setup: literal evaluates to the table value)
 var c01ECALVals []int
@@ -59,26 +61,72 @@ func c01TokLit(tok string) string {
 
 func c01Str(s string) string { return `"` + s + `"` }
 
+// c01Item renders an item of kindmatch / scopematch / a scope key: the texts 1, 2 and 1.5 are written
+// as numbers (createRule and addEvent turn every item into its text with fmt.Sprint)
+func c01Item(s string) string {
+	if s == "1" || s == "2" || s == "1.5" {
+		return s
+	}
+	return c01Str(s)
+}
+
+// c01Key renders a state key: `!`-marked keys are numbers, the others strings
+func c01Key(k string) string {
+	if strings.HasPrefix(k, "!") {
+		return k[1:]
+	}
+	return c01Str(k)
+}
+
 func c01StrList(xs []string) string {
 	ys := make([]string, len(xs))
 	for i, x := range xs {
-		ys[i] = c01Str(x)
+		ys[i] = c01Item(x)
 	}
 	return "[" + strings.Join(ys, ", ") + "]"
+}
+
+// c01ScopeLit renders a scope map; the booleans are written in the spellings strconv.ParseBool accepts / rejects
+func c01ScopeLit(defs []c01KV, salt int) string {
+	trues := []string{"true", "1", `"true"`, `"T"`}
+	falses := []string{"false", "0", `"no"`, "null"}
+	var ds []string
+	for j, d := range defs {
+		lit := falses[(salt+j)%len(falses)]
+		if d.tok == "1" {
+			lit = trues[(salt+j)%len(trues)]
+		}
+		ds = append(ds, c01Item(d.key)+" : "+lit)
+	}
+	return "{" + strings.Join(ds, ", ") + "}"
+}
+
+func c01StateLit(i int, state []c01KV) string {
+	kvs := []string{fmt.Sprintf(`"#i" : %d`, i)}
+	for _, kv := range state {
+		kvs = append(kvs, c01Key(kv.key)+" : "+c01TokLit(kv.tok))
+	}
+	return "{" + strings.Join(kvs, ", ") + "}"
 }
 
 // c01Program renders the case as an ECAL program.
 func c01Program(c *c01Case) string {
 	var sb strings.Builder
-	for _, r := range c.rules {
+	failing := map[int]bool{}
+	for _, i := range c.failing {
+		failing[i] = true
+	}
+	for ri, r := range c.rules {
 		attrs := []string{"kindmatch " + c01StrList(r.kinds)}
-		if len(r.scopes) > 0 {
+		if r.scopeNil {
+			attrs = append(attrs, "scopematch []")
+		} else if len(r.scopes) > 0 {
 			attrs = append(attrs, "scopematch "+c01StrList(r.scopes))
 		}
 		if !r.stateNil {
 			var kvs []string
 			for _, kv := range r.state {
-				kvs = append(kvs, c01Str(kv.key)+" : "+c01TokLit(kv.tok))
+				kvs = append(kvs, c01Key(kv.key)+" : "+c01TokLit(kv.tok))
 			}
 			attrs = append(attrs, "statematch {"+strings.Join(kvs, ", ")+"}")
 		}
@@ -86,31 +134,33 @@ func c01Program(c *c01Case) string {
 		if len(r.supp) > 0 {
 			attrs = append(attrs, "suppresses "+c01StrList(r.supp))
 		}
-		fmt.Fprintf(&sb, "sink %s\n  %s\n{\n  x.mark(%s, event.state[\"#i\"])\n}\n", r.name, strings.Join(attrs, ",\n  "), c01Str(r.name))
+		body := fmt.Sprintf("  x.mark(%s, event.state[\"#i\"])\n", c01Str(r.name))
+		// events this sink adds while it handles a certain event
+		for ei, e := range c.events {
+			if e.child && e.parentRule == ri {
+				args := []string{c01Str(e.name), c01Str(strings.Join(e.kind, ".")), c01StateLit(ei, e.state)}
+				if e.ownScope {
+					args = append(args, c01ScopeLit(e.scope, ei))
+				}
+				body += fmt.Sprintf("  if event.state[\"#i\"] == %d {\n    addEvent(%s)\n  }\n", e.parentEv, strings.Join(args, ", "))
+			}
+		}
+		if failing[ri] {
+			body += "  raise(\"E\", \"sink fails\")\n"
+		}
+		fmt.Fprintf(&sb, "sink %s\n  %s\n{\n%s}\n", r.name, strings.Join(attrs, ",\n  "), body)
 	}
-	// the booleans of the scope map are written in the spellings strconv.ParseBool accepts / rejects
-	trues := []string{"true", "1", `"true"`, `"T"`}
-	falses := []string{"false", "0", `"no"`, "null"}
 	for i, e := range c.events {
-		kvs := []string{fmt.Sprintf(`"#i" : %d`, i)}
-		for _, kv := range e.state {
-			kvs = append(kvs, c01Str(kv.key)+" : "+c01TokLit(kv.tok))
+		if e.child {
+			continue
 		}
 		f := "addEventAndWait"
 		if c.mode == "a" {
 			f = "addEvent"
 		}
-		args := []string{c01Str(e.name), c01Str(strings.Join(e.kind, ".")), "{" + strings.Join(kvs, ", ") + "}"}
+		args := []string{c01Str(e.name), c01Str(strings.Join(e.kind, ".")), c01StateLit(i, e.state)}
 		if !c.scopeNil {
-			var ds []string
-			for j, d := range c.scope {
-				lit := falses[(i+j)%len(falses)]
-				if d.tok == "1" {
-					lit = trues[(i+j)%len(trues)]
-				}
-				ds = append(ds, c01Str(d.key)+" : "+lit)
-			}
-			args = append(args, "{"+strings.Join(ds, ", ")+"}")
+			args = append(args, c01ScopeLit(c.scope, i))
 		}
 		fmt.Fprintf(&sb, "%s(%s)\n", f, strings.Join(args, ", "))
 	}
@@ -125,8 +175,15 @@ func c01RunECAL(c *c01Case) string {
 	erp := interpreter.NewECALRuntimeProvider("c01", nil, &memLog{})
 	defer erp.Cron.Stop()
 	proc := engine.NewProcessor(c.workers)
-	proc.SetFailOnFirstErrorInTriggerSequence(true)
+	proc.SetFailOnFirstErrorInTriggerSequence(c.failOn != "0") // interpreter/provider.go sets it for every ECAL runtime
 	erp.Processor = proc
+	if os.Getenv("C01_DEBUG") != "" {
+		proc.SetRootMonitorErrorObserver(func(rm *engine.RootMonitor) {
+			for _, e := range rm.AllErrors() {
+				fmt.Fprintln(os.Stderr, "sink error:", e.Error())
+			}
+		})
+	}
 	ast, err := parser.ParseWithRuntime("c01", src, erp)
 	if err != nil {
 		return "ERR parse " + oneLine(err.Error())
@@ -135,9 +192,17 @@ func c01RunECAL(c *c01Case) string {
 		return "ERR validate " + oneLine(err.Error())
 	}
 	if _, err = ast.Runtime.Eval(newGlobalScope(), make(map[string]interface{}), erp.NewThreadID()); err != nil {
+		if strings.Contains(err.Error(), "Cannot add rule") || strings.Contains(err.Error(), "Statematch key") {
+			if !proc.Stopped() {
+				proc.Finish()
+			}
+			return "ERR-SINK" // a sink declaration was refused: the program stops there
+		}
 		return "ERR eval " + oneLine(err.Error())
 	}
 	if !proc.Stopped() {
+		// sinks may still be adding events: wait until every worker is idle and the queue is empty
+		proc.ThreadPool().WaitAll()
 		proc.Finish()
 	}
 	var sb strings.Builder
@@ -165,7 +230,7 @@ func c01GenECAL(g *Gen, emit func(c *c01Case, what string)) {
 		return c01Rule{name: name, kinds: kinds, scopes: scopes, state: state, stateNil: stateNil}
 	}
 	ev := func(name, kind string, state []c01KV) c01Event {
-		return c01Event{name, strings.Split(kind, "."), state}
+		return c01Event{name: name, kind: strings.Split(kind, "."), state: state}
 	}
 	// directed: denials below an allowed ancestor, allowed below a denial, default scope
 	rules := []c01Rule{
@@ -191,6 +256,60 @@ func c01GenECAL(g *Gen, emit func(c *c01Case, what string)) {
 		}
 	}
 	emit(&c01Case{level: "e", mode: "w", workers: 2, rules: rules, scopeNil: true, events: evs}, "ecal-corpus")
+
+	// non-string keys: createRule turns the statematch key into its text, the event keeps the raw key
+	keyRules := []c01Rule{
+		mk("num", []string{"a"}, nil, c01St("!1", V(2)), false),
+		mk("str", []string{"a"}, nil, c01St("1", V(2)), false),
+		mk("both", []string{"a"}, nil, c01St("!1", V(2), "1", V(2)), false),
+		mk("nul", []string{"a"}, nil, c01St("!2", "A"), false),
+		mk("kn", []string{"1", "a.1", "1.5"}, []string{"1"}, nil, true),
+		mk("sc", []string{"a"}, []string{"1.5", "2"}, nil, true),
+	}
+	keyEvents := []c01Event{ev("e", "a", c01St("!1", V(2))), ev("e", "a", c01St("1", V(2))), ev("e", "a", c01St("!1", V(2), "1", V(2))),
+		ev("e", "a", c01St("!2", V(1))), ev("e", "a", nil), ev("e", "1", nil), ev("e", "a.1", nil), ev("e", "1.5", nil)}
+	for i, sc := range [][]c01KV{{{"", "1"}}, {{"1", "1"}, {"2", "1"}, {"1.5", "0"}}, {{"1", "1"}, {"2", "1"}}, {{"1", "0"}, {"1.5", "1"}, {"2", "1"}}} {
+		emit(&c01Case{level: "e", mode: "w", workers: 1 + i, rules: keyRules, scope: sc, events: keyEvents}, "ecal-nonstring-keys")
+	}
+	// `scopematch []` reaches AddRule as a nil scope match: the sink declaration fails
+	emit(&c01Case{level: "e", mode: "w", workers: 1, rules: []c01Rule{mk("ok", []string{"a"}, nil, nil, true),
+		{name: "bad", kinds: []string{"a"}, scopeNil: true, stateNil: true}}, scope: []c01KV{{"", "1"}}, events: []c01Event{ev("e", "a", nil)}}, "ecal-empty-scopematch")
+	// raising sinks under both values of the flag (every ECAL runtime sets it: interpreter/provider.go)
+	for _, ff := range []string{"0", "1"} {
+		for fail := 0; fail < 3; fail++ {
+			var rs []c01Rule
+			for j := 0; j < 3; j++ {
+				r := mk(fmt.Sprintf("p%d", j), []string{"a"}, nil, nil, true)
+				r.prio = (j*2 + 1) % 3
+				rs = append(rs, r)
+			}
+			emit(&c01Case{level: "e", mode: []string{"w", "a"}[fail%2], workers: 1 + fail, rules: rs, scope: []c01KV{{"", "1"}}, failOn: ff,
+				failing: []int{fail}, events: []c01Event{ev("e", "a", nil), ev("e", "b", nil), ev("f", "a", nil)}}, "ecal-raising-sink")
+		}
+	}
+	// sinks that add events: as a child of the running cascade (its scope) or with a scope map of their own
+	casc := []c01Rule{
+		mk("par", []string{"core.x"}, nil, nil, true),
+		mk("cw", []string{"child.*"}, []string{"data.write"}, nil, true),
+		mk("cr", []string{"child.*"}, []string{"data.read"}, nil, true),
+		mk("cn", []string{"child.*"}, nil, nil, true),
+	}
+	child := func(name, kind string, pe, pr int, own bool, sc []c01KV) c01Event {
+		return c01Event{name: name, kind: strings.Split(kind, "."), child: true, parentEv: pe, parentRule: pr, ownScope: own, scope: sc}
+	}
+	for i, sc := range [][]c01KV{{{"data", "1"}, {"data.write", "0"}}, {{"", "1"}}, {{"data.write", "1"}}, {}} {
+		for _, mode := range []string{"w", "a"} {
+			emit(&c01Case{level: "e", mode: mode, workers: 1 + i, rules: casc, scope: sc, events: []c01Event{
+				ev("e", "core.x", nil),
+				child("c1", "child.a", 0, 0, false, nil),
+				child("c2", "child.b", 0, 0, true, []c01KV{{"data.write", "1"}}),
+				child("c3", "child.c", 0, 1, false, nil),
+				child("c4", "child.d", 1, 3, false, nil),
+				child("c5", "child.e", 2, 3, true, []c01KV{{"", "1"}, {"data.read", "0"}}),
+				ev("f", "core.y", nil),
+			}}, "ecal-sink-adds-event")
+		}
+	}
 
 	n := 250
 	if g.Thorough() {
@@ -271,6 +390,62 @@ func c01GenECAL(g *Gen, emit func(c *c01Case, what string)) {
 			}
 			c.events = append(c.events, e)
 		}
-		emit(c, "ecal-random")
+		what := "ecal-random"
+		switch i % 6 {
+		case 0: // non-string keys on either side
+			what = "ecal-random-nonstring-keys"
+			flip := func(kvs []c01KV) {
+				for k := range kvs {
+					if g.R.Intn(2) == 0 {
+						kvs[k].key = []string{"!1", "!2", "1"}[g.R.Intn(3)]
+					}
+				}
+				// one entry per key text (1 and "1" in one statematch collapse in map order: not comparable)
+				seen := map[string]bool{}
+				for k := 0; k < len(kvs); k++ {
+					if seen[strings.TrimPrefix(kvs[k].key, "!")] {
+						kvs[k].key = fmt.Sprintf("u%d", k)
+					}
+					seen[strings.TrimPrefix(kvs[k].key, "!")] = true
+				}
+			}
+			for j := range c.rules {
+				flip(c.rules[j].state)
+			}
+			for j := range c.events {
+				flip(c.events[j].state)
+			}
+		case 1: // raising sinks
+			what = "ecal-random-raising-sink"
+			c.failOn = strconv.Itoa(g.R.Intn(2))
+			for j := range c.rules {
+				c.rules[j].prio = j
+				if g.R.Intn(3) == 0 {
+					c.failing = append(c.failing, j)
+				}
+			}
+		case 2: // sinks that add events
+			what = "ecal-random-sink-adds-event"
+			roots := len(c.events)
+			for k, m := 0, 1+g.R.Intn(3); k < m; k++ {
+				e := c01Event{name: "c", child: true, parentEv: g.R.Intn(roots), parentRule: g.R.Intn(len(c.rules))}
+				for _, s := range strings.Split(kindsUsed[g.R.Intn(len(kindsUsed))], ".") {
+					if s == "*" {
+						s = "a"
+					}
+					e.kind = append(e.kind, s)
+				}
+				if g.R.Bool() {
+					e.ownScope = true
+					for _, p := range paths {
+						if g.R.Intn(3) == 0 {
+							e.scope = append(e.scope, c01KV{p, fmt.Sprint(g.R.Intn(2))})
+						}
+					}
+				}
+				c.events = append(c.events, e)
+			}
+		}
+		emit(c, what)
 	}
 }
